@@ -120,7 +120,7 @@ func (w *c09win) drain() {
 // per-key buffer or in a batch received from OutputChan. The condition is exact and monotone; no result
 // is derived from how long it took.
 func (w *c09win) barrier() bool {
-	deadline := time.Now().Add(10 * time.Second)
+	deadline := time.Now().Add(barrierDeadline())
 	for {
 		w.drain()
 		if window.VerifCountingBuffered(w.cw)+w.emitted == w.expected {
@@ -130,6 +130,7 @@ func (w *c09win) barrier() bool {
 			}
 		}
 		if time.Now().After(deadline) {
+			barrierFailed = true
 			return false
 		}
 		runtime.Gosched()
@@ -211,7 +212,7 @@ func c09SQL(c Case, arity, n int) [][][]string {
 			}
 			var lines [][]string
 			d := 0
-			deadline := time.After(10 * time.Second)
+			deadline := time.After(barrierDeadline())
 		wait:
 			for {
 				select {
@@ -236,6 +237,7 @@ func c09SQL(c Case, arity, n int) [][][]string {
 						break wait
 					}
 				case <-deadline:
+					barrierFailed = true
 					lines = append(lines, []string{"sentinel-lost"})
 					break wait
 				}
